@@ -175,3 +175,14 @@ Example C04_float_model_example :
   ReduceFloat.check_reduce (0%nat, 2%nat, keys, vals, [], 0, 0%float, 4) = true /\
   ReduceFloat.check_reduce (0%nat, 3%nat, [0; 1; -1; 0], [nan; 2; 5; nan]%float, [], 0, 0%float, 0) = true.
 Proof. vm_compute. repeat split. Qed.
+
+(* one thread is the single pass, and the single pass of group g reads the rows of group g only - in IEEE arithmetic, for every
+   float64 input: no value, NaN or infinity of another group enters *)
+Theorem C04_float_one_thread_is_the_single_pass f keys vals mask g :
+  ReduceFloat.group_reduce_f f keys vals mask 1 g = ReduceFloat.piece_reduce f g (ReduceFloat.keep_rows keys vals mask).
+Proof. exact (ReduceFloatProofs.one_thread_is_the_single_pass f keys vals mask g). Qed.
+Theorem C04_float_single_pass_ignores_other_groups f g rows :
+  ReduceFloat.piece_reduce f g rows = ReduceFloat.piece_reduce f g (filter (fun r => (fst r =? g)%Z) rows).
+Proof. exact (ReduceFloatProofs.single_pass_ignores_other_groups f g rows). Qed.
+Print Assumptions C04_float_one_thread_is_the_single_pass.
+Print Assumptions C04_float_single_pass_ignores_other_groups.
